@@ -88,6 +88,10 @@ FCALLS = [['Q=FNA(F{v}%)', 'PRINT SPC(0);LEFT$("A",FNA(F{v}%));', 'IF FNA(F{v}%)
 # FOR with a failing bound / step expression; once repaired the loop is empty (1 TO 0) and jumps over its NEXT
 FORS = {5: ['FOR Q%=1 TO SQR(F{v}%-1)', 'FOR Q%=1+SQR(F{v}%-1) TO 0', 'FOR Q%=1 TO 0 STEP SQR(F{v}%-1)+1'],
         9: ['FOR Q%=1 TO A%(11-F{v}%)']}
+# loop programs (reference only): WHILE conditions over W% that evaluate fine on entry and fail when the
+# counter reaches `fail` at a later WEND re-check; false from `false_from` on: (text, fail, false_from, error)
+CONDS = [('SQR(W%)<10', -1, 100, 5), ('LOG(W%+1)<4', -1, 54, 5),
+         ('ASC(STRING$(W%+1,65+W%\\50))<67', -1, 100, 5)]
 SEPS = [':'] * 11 + [' :', ' :', ': ', ': ', ' : ', ' : ', ' : ', '  :  ', ' :  ']
 # float errors: soft-handled (message, execution goes on) unless a trap has been set up
 SOFTS = {
@@ -136,6 +140,18 @@ def stext(s):
     if k == 'A':
         return FORS[s[2]][s[3]].format(v=s[1])
     if k == 'B':
+        return 'NEXT'
+    if k == 'WS':
+        return 'W%%=%d' % s[1]
+    if k == 'WD':
+        return 'W%=W%-1'
+    if k == 'WH':
+        return 'WHILE ' + CONDS[s[1]][0]
+    if k == 'WE':
+        return 'WEND'
+    if k == 'FI':
+        return 'FOR I%=32766 TO 32767'
+    if k == 'FN':
         return 'NEXT'
     if k == 'C':
         return CFAULTS[s[2]][s[3]].format(v=s[1])
@@ -256,6 +272,8 @@ class Ref(object):
         self.defs = set()
         self.g = 0
         self.stack = []
+        self.w, self.i, self.forpos = 0, 0, None
+        self.whiles = []               # (position of the WHILE, position of its WEND), innermost last
         self.events = []
         self.stats = stats if stats is not None else {}
 
@@ -270,6 +288,25 @@ class Ref(object):
         if si + 1 < len(self.lines[li][1]):
             return (li, si + 1)
         return (li + 1, 0)
+
+    def find_wend(self, pos):
+        depth, p = 0, self.after(pos)
+        while p[0] < len(self.lines):
+            k = self.lines[p[0]][1][p[1]][0]
+            if k == 'WH':
+                depth += 1
+            elif k == 'WE':
+                if depth == 0:
+                    return p
+                depth -= 1
+            p = self.after(p)
+        raise _Error(29)
+
+    def while_cond(self, c):
+        _text, fail, false_from, err = CONDS[c]
+        if self.w <= fail:
+            raise _Error(err)
+        return self.w < false_from
 
     def line_start(self, n):
         if n not in self.index:
@@ -342,6 +379,8 @@ class Ref(object):
         self.err, self.erl = code, erl
         if code == 2:
             self.err = '?'                # the syntax-error EDIT prompt resets ERR (not in the statement)
+        if erl == '?':
+            raise _Unknown()
         raise _Stop('err%d' % code + ('' if erl == 65535 else '@%d' % erl))
 
     def line_start_noerr(self, n):
@@ -394,6 +433,45 @@ class Ref(object):
             return self.after(nxt)        # empty loop: execution goes on after its NEXT
         elif k == 'B':
             raise _Error(1)               # the NEXT of a FOR that failed: NEXT without FOR
+        elif k == 'WS':
+            self.w = st[1]
+        elif k == 'WD':
+            self.w -= 1
+        elif k == 'WH':
+            wend = self.find_wend(pos)
+            if self.while_cond(st[1]):    # an error here belongs to the WHILE statement being executed
+                self.whiles.append((pos, wend))
+            else:
+                return self.after(wend)
+        elif k == 'WE':
+            # the statement being executed is the WEND: an error in the re-evaluated condition is trapped
+            # with the WEND as the statement to RESUME at / after (ERL: the line holding the expression)
+            while self.whiles and self.whiles[-1][1] != pos:
+                self.whiles.pop()
+            if not self.whiles:
+                raise _Error(30)
+            wpos = self.whiles[-1][0]
+            wline = self.lines[wpos[0]][0]
+            try:
+                go_on = self.while_cond(self.lines[wpos[0]][1][wpos[1]][1])
+            except _Error as e:
+                self.note('implicit-reeval:wend-condition-fault')
+                raise _Error(e.code, wline if wline == self.line_no(pos) else '?')
+            if go_on:
+                return self.after(wpos)
+            self.whiles.pop()
+        elif k == 'FI':
+            self.i = 32766
+            self.forpos = nxt
+        elif k == 'FN':
+            # NEXT increments the counter first: overflow of the integer counter is an error of the NEXT
+            if self.forpos is None:
+                raise _Error(1)           # reached by a jump, the FOR was never executed
+            if self.i + 1 > 32767:
+                self.note('implicit-reeval:next-counter-overflow')
+                raise _Error(6)
+            self.i += 1
+            return self.forpos
         elif k == 'U':
             tgt = self.line_start(st[1])
             self.stack.append(nxt)
@@ -447,6 +525,7 @@ class Ref(object):
             self.trap, self.failed, self.err, self.erl = 0, None, 0, 0
             self.flags, self.g, self.stack = set(), 0, []
             self.defs = set()
+            self.w, self.i, self.whiles, self.forpos = 0, 0, [], None
             self.trap_was_set = False         # RUN starts afresh: float errors are soft-handled again
             return (0, 0)
         else:
@@ -1149,13 +1228,14 @@ ERRS_WITH_MSG = set(list(range(1, 21)) + list(range(22, 28)) + [29, 30] + [50, 5
 
 
 def run_batch(ctx, impl, progs):
-    """progs: (name, lines, directs, case)"""
+    """progs: (name, lines, directs, case); programs of kind 'loop' have no Lean model (reference only)"""
     outs, protos, cases = [], [], []
+    with_model = not (progs and progs[0][3].get('kind') == 'loop')
     for name, lines, directs, case in progs:
         lay = case.get('lay')
         out = impl.run(prog_text(lines, lay), direct_texts(directs, lay))
         outs.append(out)
-        protos.append(proto(lines, directs))
+        protos.append(proto(lines, directs) if with_model else '')
         cases.append(case)
         ctx.case(('prog', name))
         classify(ctx, lines, directs, lay)
@@ -1175,8 +1255,70 @@ def run_batch(ctx, impl, progs):
             key = '%s:%s' % (case.get('kind'), ev[-1] if ev else 'plain') if case.get('kind') != 'fixed' else name
             ctx.fail(key, case, '%s; program %s ; directs %s ; implementation %s'
                      % (bad, ' / '.join(prog_text(lines, lay)), ' / '.join(direct_texts(directs, lay)), out))
-    ctx.compare(cases, outs, protos, label='session')
+    if with_model:
+        ctx.compare(cases, outs, protos, label='session')
     return outs
+
+
+def gen_loop(pseed, table):
+    """errors raised by the IMPLICIT re-evaluation at a loop end: the WHILE condition re-checked by WEND
+    (fine on entry, failing when the counter has run down), the integer counter overflowing in NEXT; the
+    statement in error is the WEND / NEXT being executed.  WHILE, body and WEND are cut into lines at random
+    (WEND first / middle / last of its line, on the WHILE line or not); reference only (no Lean model)."""
+    rng = random.Random(pseed)
+    marker = [0]
+
+    def mark():
+        marker[0] += 1
+        return ('M', marker[0])
+
+    def filler(n):
+        out = []
+        for _ in range(n):
+            r = rng.random()
+            out.append(mark() if r < 0.6 else ('N', rng.randrange(2)) if r < 0.75 else
+                       ('T', rng.randrange(NFLAGS)) if r < 0.85 else
+                       ('C', rng.randrange(NFLAGS), 5, rng.choice(table['C'][5])))
+        return out
+
+    seq = [('WS', rng.randint(0, 2))] + filler(rng.randint(0, 2))
+    blocks = ['while', 'for'] if rng.random() < 0.5 else ['for', 'while']
+    if rng.random() < 0.5:
+        blocks = ['while'] if rng.random() < 0.8 else ['for']
+    for b in blocks:
+        if b == 'while':
+            seq += [('WH', rng.randrange(len(CONDS)))] + filler(rng.randint(0, 2)) + [('WD',)] + \
+                   filler(rng.randint(0, 1)) + [('WE',)] + filler(rng.randint(0, 2))
+        else:
+            seq += [('FI',)] + filler(rng.randint(0, 2)) + [('FN',)] + filler(rng.randint(0, 2))
+    seq += filler(rng.randint(1, 2)) + [('X',)]
+    nums = Numbers(rng)
+    body = []
+    cur = [('O', 0)]                       # patched below with the handler's line number
+    for st in seq:
+        if len(cur) >= 5 or (cur and rng.random() < 0.3):
+            body.append(cur)
+            cur = []
+        cur.append(st)
+    body.append(cur)
+    lines = [(nums.next(), st) for st in body]
+    targets = [n for n, _ in lines]
+    h0, h1 = nums.next(), nums.next()
+    if UNDEF in targets + [h0, h1]:
+        return gen_loop(pseed + 1, table)
+    lines[0] = (lines[0][0], [('O', h0)] + lines[0][1][1:])
+    hb = [('P',)] if rng.random() < 0.8 else []
+    if rng.random() < 0.5:
+        hb.extend(('T', v) for v in range(NFLAGS))
+    if rng.random() < 0.25:
+        hb.append(('WS', rng.choice([100, 100, 2])))
+    r = rng.random()
+    hb.append(('ZN',) if r < 0.5 else ('Z',) if r < 0.75 else ('ZL', rng.choice(targets)))
+    lines += [(h0, [('I',), ('Q', rng.randint(2, 4))]), (h1, hb)]
+    directs = [[('RUN',)]]
+    if rng.random() < 0.4:
+        directs.append([('P',)])
+    return lines, directs
 
 
 def fixed_cases():
@@ -1193,6 +1335,8 @@ def make(kind, pseed, table):
         return gen_structured(pseed, table)
     if kind == 'random':
         return gen_random(pseed, table)
+    if kind == 'loop':
+        return gen_loop(pseed, table)
     raise ValueError(kind)
 
 
@@ -1210,8 +1354,8 @@ def run(ctx):
         for text in SPECIAL:
             special_check(ctx, impl, text)
         ctx.log('real faulting statements done')
-        n_struct, n_rand = (800, 450) if ctx.quick else (5000, 3000)
-        for kind, n in (('struct', n_struct), ('random', n_rand)):
+        n_struct, n_rand, n_loop = (760, 420, 150) if ctx.quick else (5000, 3000, 1200)
+        for kind, n in (('struct', n_struct), ('random', n_rand), ('loop', n_loop)):
             batch = []
             for _ in range(n):
                 pseed = rng.randrange(1 << 40)
